@@ -117,11 +117,18 @@ package cryptoutils
 //@ spec func u32be(v int) seq { seq(v / 16777216, (v / 65536) % 256, (v / 256) % 256, v % 256) }
 //@ spec func kdfHash(alg int, bits int) int { (alg == 2 && bits != 128) ? 5 : 3 }
 //@ spec func kdfLen(alg int, bits int) int { alg == 1 ? 16 : bits / 8 }
+// parityS(s): every octet adjusted to odd parity (defined by the axiom); kdfKey is the derived key of ICAO 9303-11 §9.7.1.
+//@ uf parityS(seq) seq
+//@ axiom parityS_def: forall s seq :: len(parityS(s)) == len(s) && (forall i :: 0 <= i && i < len(s) ==> parityS(s)[i] == oddParity(s[i]))
+//@ spec func kdfKey(k seq, c int, alg int, bits int) seq {
+//@     alg == 1 ? parityS(hashF(3, cat(k, u32be(c)))[:16]) : hashF(kdfHash(alg, bits), cat(k, u32be(c)))[:kdfLen(alg, bits)] }
 //@ func KDF
 //@   props C04 C05 C06 C12
 //@   requires "supported-suite": (alg == 1 && keySizeBits == 112) || (alg == 2 && (keySizeBits == 128 || keySizeBits == 192 || keySizeBits == 256))
 //@   ensures "length": len(result) == kdfLen(alg, keySizeBits)
 //@   ensures "aes": alg == 2 ==> result === hashF(kdfHash(alg, keySizeBits), cat(k, u32be(c % 4294967296)))[:kdfLen(alg, keySizeBits)]
 //@   ensures "tdes": alg == 1 ==> (forall i :: 0 <= i && i < 16 ==> result[i] == oddParity(hashF(3, cat(k, u32be(c % 4294967296)))[i]))
+//@   ensures "derived-key": 0 <= c && c < 4294967296 ==> result === kdfKey(k, c, alg, keySizeBits)
+//@   ensures fresh(result)
 //@   assigns nothing
 //@   safety all
